@@ -396,3 +396,788 @@ Proof.
   intros (Hn & Hk & _). unfold ext_pure, all_addr, sec_ivs, addr_iv, getn.
   rewrite Hn, Hk. reflexivity.
 Qed.
+
+(* ================= sections_on / sections_at ================= *)
+
+Definition sections_step (t : Z -> Z -> bool) (st : world * list id) (s : id) : world * list id :=
+  let '(w, acc) := st in
+  let '(w1, ext) := sec_extent w s in
+  match ext with
+  | Some (a, sz) => (w1, if t a sz then acc ++ [s] else acc)
+  | None => (w1, acc)
+  end.
+
+Definition sections_gen (t : Z -> Z -> bool) (w : world) (secs : list id) : world * list id :=
+  fold_left (sections_step t) secs (w, []).
+
+Lemma sections_on_gen w secs q :
+  sections_on w secs q =
+  sections_gen (fun a sz => Z.max (qstart q) a <? Z.min (qstop q) (a + sz)) w secs.
+Proof. reflexivity. Qed.
+
+Lemma sections_at_gen w secs q :
+  sections_at w secs q = sections_gen (fun a _ => in_q a q) w secs.
+Proof. reflexivity. Qed.
+
+Definition ext_test (t : Z -> Z -> bool) (w : world) (s : id) : bool :=
+  match ext_pure w s with Some (a, sz) => t a sz | None => false end.
+
+Lemma ext_test_true t w s : ext_test t w s = true <->
+  exists a sz, ext_pure w s = Some (a, sz) /\ t a sz = true.
+Proof.
+  unfold ext_test. destruct (ext_pure w s) as [[a sz]|]; split.
+  - intros H. exists a, sz. auto.
+  - intros (a' & sz' & E & H). inversion E; subst. exact H.
+  - discriminate.
+  - intros (a' & sz' & E & H). discriminate.
+Qed.
+
+Lemma sections_fold_spec known t : forall secs w acc, Good known w ->
+  (forall s, In s secs -> kindof w s = KSec) ->
+  Good known (fst (fold_left (sections_step t) secs (w, acc))) /\
+  agree w (fst (fold_left (sections_step t) secs (w, acc))) /\
+  snd (fold_left (sections_step t) secs (w, acc)) = acc ++ filter (ext_test t w) secs.
+Proof.
+  induction secs as [|s secs IH]; intros w acc HG HK.
+  - simpl. split; [exact HG|]. split; [apply agree_refl|]. rewrite app_nil_r. reflexivity.
+  - cbn [fold_left].
+    assert (E : sections_step t (w, acc) s =
+                (fst (sec_extent w s),
+                 match ext_pure w s with
+                 | Some (a, sz) => if t a sz then acc ++ [s] else acc
+                 | None => acc
+                 end)).
+    { destruct HG as (HF & HS & HN).
+      pose proof (sec_extent_exact w known s HF HS (HK s (or_introl eq_refl))) as Hx.
+      unfold sections_step. destruct (sec_extent w s) as [w1 ext]. simpl in Hx. subst ext.
+      simpl. destruct (ext_pure w s) as [[a sz]|]; reflexivity. }
+    rewrite E. destruct (sec_extent_world known w s HG) as [HG1 Hag].
+    assert (HK1 : forall s', In s' secs -> kindof (fst (sec_extent w s)) s' = KSec).
+    { intros s' Hs'. rewrite (agree_kindof _ _ s' Hag). apply HK. simpl. auto. }
+    destruct (IH (fst (sec_extent w s))
+                 (match ext_pure w s with
+                  | Some (a, sz) => if t a sz then acc ++ [s] else acc
+                  | None => acc
+                  end) HG1 HK1) as (I1 & I2 & I3).
+    split; [exact I1|]. split; [exact (agree_trans _ _ _ Hag I2)|]. rewrite I3.
+    assert (Hfl : filter (ext_test t (fst (sec_extent w s))) secs = filter (ext_test t w) secs).
+    { apply filter_ext. intros x. unfold ext_test. rewrite (agree_ext_pure _ _ x Hag). reflexivity. }
+    rewrite Hfl. cbn [filter].
+    assert (Hf : ext_test t w s =
+                 match ext_pure w s with Some (a, sz) => t a sz | None => false end) by reflexivity.
+    rewrite Hf. destruct (ext_pure w s) as [[a sz]|].
+    + destruct (t a sz); [rewrite <- app_assoc|]; reflexivity.
+    + reflexivity.
+Qed.
+
+Theorem sections_gen_spec known t w secs : Good known w ->
+  (forall s, In s secs -> kindof w s = KSec) ->
+  Good known (fst (sections_gen t w secs)) /\ agree w (fst (sections_gen t w secs)) /\
+  snd (sections_gen t w secs) = filter (ext_test t w) secs.
+Proof.
+  intros HG HK. unfold sections_gen. apply (sections_fold_spec known t secs w [] HG HK).
+Qed.
+
+Theorem sections_on_exact known w secs q : Good known w -> NoDup secs ->
+  (forall s, In s secs -> kindof w s = KSec) ->
+  NoDup (snd (sections_on w secs q)) /\
+  forall s, In s (snd (sections_on w secs q)) <->
+    In s secs /\ exists a sz, ext_pure w s = Some (a, sz) /\
+      (Z.max (qstart q) a <? Z.min (qstop q) (a + sz)) = true.
+Proof.
+  intros HG Hnd HK. rewrite sections_on_gen.
+  destruct (sections_gen_spec known (fun a sz => Z.max (qstart q) a <? Z.min (qstop q) (a + sz)) w secs HG HK) as (_ & _ & E). rewrite E.
+  split; [apply NoDup_filter; exact Hnd|].
+  intros s. rewrite filter_In, ext_test_true. tauto.
+Qed.
+
+Theorem sections_at_exact known w secs q : Good known w -> NoDup secs ->
+  (forall s, In s secs -> kindof w s = KSec) ->
+  NoDup (snd (sections_at w secs q)) /\
+  forall s, In s (snd (sections_at w secs q)) <->
+    In s secs /\ exists a sz, ext_pure w s = Some (a, sz) /\ in_q a q = true.
+Proof.
+  intros HG Hnd HK. rewrite sections_at_gen.
+  destruct (sections_gen_spec known (fun a (_ : Z) => in_q a q) w secs HG HK) as (_ & _ & E). rewrite E.
+  split; [apply NoDup_filter; exact Hnd|].
+  intros s. rewrite filter_In, ext_test_true. tauto.
+Qed.
+
+Lemma sections_on_world known w secs q : Good known w ->
+  (forall s, In s secs -> kindof w s = KSec) ->
+  Good known (fst (sections_on w secs q)) /\ agree w (fst (sections_on w secs q)).
+Proof.
+  intros HG HK. rewrite sections_on_gen.
+  destruct (sections_gen_spec known (fun a sz => Z.max (qstart q) a <? Z.min (qstop q) (a + sz)) w secs HG HK) as (H1 & H2 & _). auto.
+Qed.
+
+Lemma sections_at_world known w secs q : Good known w ->
+  (forall s, In s secs -> kindof w s = KSec) ->
+  Good known (fst (sections_at w secs q)) /\ agree w (fst (sections_at w secs q)).
+Proof.
+  intros HG HK. rewrite sections_at_gen.
+  destruct (sections_gen_spec known (fun a (_ : Z) => in_q a q) w secs HG HK) as (H1 & H2 & _). auto.
+Qed.
+
+(* ================= chaining lookups over containers ================= *)
+
+Definition lookup := world -> id -> qrange -> world * list id.
+Definition spec := world -> id -> qrange -> id -> Prop.
+Definition dom := world -> id -> Prop.
+
+Definition chain_step (f : lookup) (q : qrange) (st : world * list id) (x : id) : world * list id :=
+  let '(w, acc) := st in let '(w', r) := f w x q in (w', acc ++ r).
+
+Lemma chain_unfold f l q w : chain f l q w = fold_left (chain_step f q) l (w, []).
+Proof. reflexivity. Qed.
+
+Lemma chain_step_eq f q w acc x :
+  chain_step f q (w, acc) x = (fst (f w x q), acc ++ snd (f w x q)).
+Proof. unfold chain_step. destruct (f w x q); reflexivity. Qed.
+
+Lemma chain_acc f q l : forall w acc,
+  fold_left (chain_step f q) l (w, acc) =
+  (fst (fold_left (chain_step f q) l (w, [])), acc ++ snd (fold_left (chain_step f q) l (w, []))).
+Proof.
+  induction l as [|x l IH]; intros w acc; cbn [fold_left].
+  - simpl. rewrite app_nil_r. reflexivity.
+  - rewrite !chain_step_eq.
+    rewrite (IH (fst (f w x q)) (acc ++ snd (f w x q))).
+    rewrite (IH (fst (f w x q)) ([] ++ snd (f w x q))).
+    simpl. rewrite app_assoc. reflexivity.
+Qed.
+
+Lemma chain_nil f q w : chain f [] q w = (w, []).
+Proof. reflexivity. Qed.
+
+(* the result of chain is the concatenation of the results of f on the successive worlds *)
+Lemma chain_cons f x l q w :
+  chain f (x :: l) q w =
+  (fst (chain f l q (fst (f w x q))), snd (f w x q) ++ snd (chain f l q (fst (f w x q)))).
+Proof.
+  rewrite !chain_unfold. cbn [fold_left]. rewrite chain_step_eq, chain_acc. reflexivity.
+Qed.
+
+Section Lift.
+  Variable known : list id.
+
+  (* f, on containers in D, returns a world satisfying the premises again and agreeing with the
+     old one outside `tree`, and a duplicate-free list inside the envelope [Cp, Sd] *)
+  Definition envl (Sd Cp : spec) (D : dom) (f : lookup) : Prop :=
+    forall w x q, Good known w -> D w x ->
+      Good known (fst (f w x q)) /\ agree w (fst (f w x q)) /\ NoDup (snd (f w x q)) /\
+      (forall b, In b (snd (f w x q)) -> Sd w x q b) /\
+      (forall b, Cp w x q b -> In b (snd (f w x q))).
+
+  Definition stable (P : spec) : Prop :=
+    forall w w' x q b, agree w w' -> (P w x q b <-> P w' x q b).
+  Definition stableD (D : dom) : Prop := forall w w' x, agree w w' -> D w x -> D w' x.
+  Definition disj (P : spec) : Prop :=
+    forall w x y q b, Good known w -> P w x q b -> P w y q b -> x = y.
+
+  Lemma chain_env Sd Cp D f : envl Sd Cp D f -> stable Sd -> stable Cp -> stableD D -> disj Sd ->
+    forall q l w, Good known w -> NoDup l -> (forall x, In x l -> D w x) ->
+      Good known (fst (chain f l q w)) /\ agree w (fst (chain f l q w)) /\
+      NoDup (snd (chain f l q w)) /\
+      (forall b, In b (snd (chain f l q w)) -> exists x, In x l /\ Sd w x q b) /\
+      (forall b x, In x l -> Cp w x q b -> In b (snd (chain f l q w))).
+  Proof.
+    intros He HsS HsC HsD Hdj q l. induction l as [|x l IH]; intros w HG Hnd HD.
+    - rewrite chain_nil. simpl. split; [exact HG|]. split; [apply agree_refl|].
+      split; [constructor|]. split; [intros b []|intros b x []].
+    - rewrite chain_cons. cbn [fst snd].
+      destruct (He w x q HG (HD x (or_introl eq_refl))) as (G1 & A1 & N1 & S1 & C1).
+      inversion Hnd as [|x' l' Hx Hnd']; subst x' l'.
+      assert (HD1 : forall y, In y l -> D (fst (f w x q)) y).
+      { intros y Hy. apply (HsD w _ y A1). apply HD. simpl; auto. }
+      destruct (IH (fst (f w x q)) G1 Hnd' HD1) as (G2 & A2 & N2 & S2 & C2).
+      split; [exact G2|]. split; [exact (agree_trans _ _ _ A1 A2)|]. split; [|split].
+      + apply NoDup_app_intro; auto. intros b Hb1 Hb2. apply S1 in Hb1. apply S2 in Hb2.
+        destruct Hb2 as [y [Hy Hb2]]. apply (proj2 (HsS w _ y q b A1)) in Hb2.
+        assert (x = y) by (apply (Hdj w x y q b HG Hb1 Hb2)). subst y. auto.
+      + intros b Hb. apply in_app_iff in Hb. destruct Hb as [Hb|Hb].
+        * exists x. split; [simpl; auto|auto].
+        * apply S2 in Hb. destruct Hb as [y [Hy Hb]]. exists y. split; [simpl; auto|].
+          apply (proj2 (HsS w _ y q b A1)). exact Hb.
+      + intros b y [Hy|Hy] Hc; apply in_app_iff.
+        * subst y. left. auto.
+        * right. apply (C2 b y Hy). apply (proj1 (HsC w _ y q b A1)). exact Hc.
+  Qed.
+
+  (* lifting a lookup to a container of containers *)
+  Definition liftS (L : world -> id -> list id) (P : spec) : spec :=
+    fun w m q b => exists x, In x (L w m) /\ P w x q b.
+
+  Lemma lift_envl Sd Cp D (D' : dom) f (L : world -> id -> list id) :
+    envl Sd Cp D f -> stable Sd -> stable Cp -> stableD D -> disj Sd ->
+    (forall w m, Good known w -> D' w m -> NoDup (L w m)) ->
+    (forall w m x, Good known w -> D' w m -> In x (L w m) -> D w x) ->
+    envl (liftS L Sd) (liftS L Cp) D' (fun w m q => chain f (L w m) q w).
+  Proof.
+    intros He HsS HsC HsD Hdj HL1 HL2 w m q HG HD'.
+    destruct (chain_env Sd Cp D f He HsS HsC HsD Hdj q (L w m) w HG (HL1 w m HG HD')
+                (fun x Hx => HL2 w m x HG HD' Hx)) as (G & A & N & S1 & C1).
+    split; [exact G|]. split; [exact A|]. split; [exact N|]. split.
+    - exact S1.
+    - intros b [x [Hx Hc]]. apply (C1 b x Hx Hc).
+  Qed.
+
+  Lemma lift_stable (L : world -> id -> list id) P :
+    (forall w w' m, agree w w' -> L w' m = L w m) -> stable P -> stable (liftS L P).
+  Proof.
+    intros HL HP w w' m q b A. unfold liftS. rewrite (HL w w' m A). split.
+    - intros [x [Hx H]]. exists x. split; auto. apply (proj1 (HP w w' x q b A)). exact H.
+    - intros [x [Hx H]]. exists x. split; auto. apply (proj2 (HP w w' x q b A)). exact H.
+  Qed.
+
+  Lemma lift_disj (L : world -> id -> list id) P : disj P ->
+    (forall w m m' x, Good known w -> In x (L w m) -> In x (L w m') -> m = m') ->
+    disj (liftS L P).
+  Proof.
+    intros HP HL w m m' q b HG [x [Hx H]] [x' [Hx' H']].
+    assert (x = x') by (apply (HP w x x' q b HG H H')). subst x'.
+    apply (HL w m m' x HG Hx Hx').
+  Qed.
+End Lift.
+
+(* ================= instances ================= *)
+
+Definition Dbi : dom := fun w bi => kindof w bi = KBI.
+Definition Dsec : dom := fun w s => kindof w s = KSec.
+Definition Dany : dom := fun _ _ => True.
+
+Definition bi_on_spec : spec := fun w bi q b =>
+  In b (kids w bi) /\ exists a, naddr (getn w bi) = Some a /\
+    on_spec (a + noff (getn w b)) (nsize (getn w b)) q = true.
+Definition bi_at_spec : spec := fun w bi q b =>
+  In b (kids w bi) /\ exists a, naddr (getn w bi) = Some a /\
+    in_q (a + noff (getn w b)) q = true.
+Definition bi_on_off_spec : spec := fun w bi q b =>
+  In b (kids w bi) /\ on_spec (noff (getn w b)) (nsize (getn w b)) q = true.
+Definition bi_at_off_spec : spec := fun w bi q b =>
+  In b (kids w bi) /\ in_q (noff (getn w b)) q = true.
+Definition sec_bis_on_spec : spec := fun w s q bi =>
+  In bi (kids w s) /\ exists a, naddr (getn w bi) = Some a /\
+    on_spec a (nsize (getn w bi)) q = true.
+Definition sec_bis_at_spec : spec := fun w s q bi =>
+  In bi (kids w s) /\ exists a, naddr (getn w bi) = Some a /\ in_q a q = true.
+
+Lemma kids_disj known w x y b : Forest w known -> In b (kids w x) -> In b (kids w y) -> x = y.
+Proof.
+  intros HF H1 H2. apply (f_two_ended w known HF) in H1. apply (f_two_ended w known HF) in H2.
+  congruence.
+Qed.
+
+Lemma kid_of_sec_is_bi known w s bi : Forest w known -> kindof w s = KSec ->
+  In bi (kids w s) -> kindof w bi = KBI.
+Proof.
+  intros HF HK Hin. apply (f_two_ended w known HF) in Hin.
+  destruct (f_kind w known HF s bi Hin) as (_ & _ & Hp). rewrite HK in Hp.
+  destruct (kindof w bi); simpl in Hp; try discriminate; reflexivity.
+Qed.
+
+Lemma stableD_Dbi : stableD Dbi.
+Proof. intros w w' x A H. unfold Dbi. rewrite (agree_kindof _ _ x A). exact H. Qed.
+Lemma stableD_Dsec : stableD Dsec.
+Proof. intros w w' x A H. unfold Dsec. rewrite (agree_kindof _ _ x A). exact H. Qed.
+Lemma stableD_Dany : stableD Dany.
+Proof. intros w w' x A H. exact I. Qed.
+
+Lemma stable_bi_on : stable bi_on_spec.
+Proof. intros w w' x q b (Hn & Hk & _). unfold bi_on_spec, getn. rewrite Hn, Hk. tauto. Qed.
+Lemma stable_bi_at : stable bi_at_spec.
+Proof. intros w w' x q b (Hn & Hk & _). unfold bi_at_spec, getn. rewrite Hn, Hk. tauto. Qed.
+Lemma stable_bi_on_off : stable bi_on_off_spec.
+Proof. intros w w' x q b (Hn & Hk & _). unfold bi_on_off_spec, getn. rewrite Hn, Hk. tauto. Qed.
+Lemma stable_bi_at_off : stable bi_at_off_spec.
+Proof. intros w w' x q b (Hn & Hk & _). unfold bi_at_off_spec, getn. rewrite Hn, Hk. tauto. Qed.
+Lemma stable_sec_bis_on : stable sec_bis_on_spec.
+Proof. intros w w' x q b (Hn & Hk & _). unfold sec_bis_on_spec, getn. rewrite Hn, Hk. tauto. Qed.
+Lemma stable_sec_bis_at : stable sec_bis_at_spec.
+Proof. intros w w' x q b (Hn & Hk & _). unfold sec_bis_at_spec, getn. rewrite Hn, Hk. tauto. Qed.
+
+Lemma disj_bi_on known : disj known bi_on_spec.
+Proof. intros w x y q b (HF & _) [H1 _] [H2 _]. exact (kids_disj known w x y b HF H1 H2). Qed.
+Lemma disj_bi_at known : disj known bi_at_spec.
+Proof. intros w x y q b (HF & _) [H1 _] [H2 _]. exact (kids_disj known w x y b HF H1 H2). Qed.
+Lemma disj_bi_on_off known : disj known bi_on_off_spec.
+Proof. intros w x y q b (HF & _) [H1 _] [H2 _]. exact (kids_disj known w x y b HF H1 H2). Qed.
+Lemma disj_bi_at_off known : disj known bi_at_off_spec.
+Proof. intros w x y q b (HF & _) [H1 _] [H2 _]. exact (kids_disj known w x y b HF H1 H2). Qed.
+Lemma disj_sec_bis_on known : disj known sec_bis_on_spec.
+Proof. intros w x y q b (HF & _) [H1 _] [H2 _]. exact (kids_disj known w x y b HF H1 H2). Qed.
+Lemma disj_sec_bis_at known : disj known sec_bis_at_spec.
+Proof. intros w x y q b (HF & _) [H1 _] [H2 _]. exact (kids_disj known w x y b HF H1 H2). Qed.
+
+Lemma bi_blocks_on_envl known : envl known bi_on_spec bi_on_spec Dbi bi_blocks_on.
+Proof.
+  intros w bi q HG HD. destruct (bi_blocks_on_world known w bi q HG) as [G A].
+  destruct HG as (HF & HS & HN).
+  destruct (bi_blocks_on_exact w known bi q HF HS HN HD) as [N I].
+  split; [exact G|]. split; [exact A|]. split; [exact N|].
+  split; intros b Hb; [exact (proj1 (I b) Hb)|exact (proj2 (I b) Hb)].
+Qed.
+
+Lemma bi_blocks_at_envl known : envl known bi_at_spec bi_at_spec Dbi bi_blocks_at.
+Proof.
+  intros w bi q HG HD. destruct (bi_blocks_at_world known w bi q HG) as [G A].
+  destruct HG as (HF & HS & HN).
+  destruct (bi_blocks_at_exact w known bi q HF HS HN HD) as [N I].
+  split; [exact G|]. split; [exact A|]. split; [exact N|].
+  split; intros b Hb; [exact (proj1 (I b) Hb)|exact (proj2 (I b) Hb)].
+Qed.
+
+Lemma bi_blocks_on_off_envl known : envl known bi_on_off_spec bi_on_off_spec Dbi bi_blocks_on_off.
+Proof.
+  intros w bi q HG HD. destruct (bi_blocks_on_off_world known w bi q HG) as [G A].
+  destruct HG as (HF & HS & HN).
+  destruct (bi_blocks_on_off_exact w bi q HS HN HD) as [N I].
+  split; [exact G|]. split; [exact A|]. split; [exact N|].
+  split; intros b Hb; [exact (proj1 (I b) Hb)|exact (proj2 (I b) Hb)].
+Qed.
+
+Lemma bi_blocks_at_off_envl known : envl known bi_at_off_spec bi_at_off_spec Dbi bi_blocks_at_off.
+Proof.
+  intros w bi q HG HD. destruct (bi_blocks_at_off_world known w bi q HG) as [G A].
+  destruct HG as (HF & HS & HN).
+  destruct (bi_blocks_at_off_exact w bi q HS HN HD) as [N I].
+  split; [exact G|]. split; [exact A|]. split; [exact N|].
+  split; intros b Hb; [exact (proj1 (I b) Hb)|exact (proj2 (I b) Hb)].
+Qed.
+
+Lemma sec_bis_on_envl known : envl known sec_bis_on_spec sec_bis_on_spec Dsec sec_bis_on.
+Proof.
+  intros w s q HG HD. destruct (sec_bis_on_world known w s q HG) as [G A].
+  destruct HG as (HF & HS & HN).
+  destruct (sec_bis_on_exact w s q HS HN HD) as [N I].
+  split; [exact G|]. split; [exact A|]. split; [exact N|].
+  split; intros b Hb; [exact (proj1 (I b) Hb)|exact (proj2 (I b) Hb)].
+Qed.
+
+Lemma sec_bis_at_envl known : envl known sec_bis_at_spec sec_bis_at_spec Dsec sec_bis_at.
+Proof.
+  intros w s q HG HD. destruct (sec_bis_at_world known w s q HG) as [G A].
+  destruct HG as (HF & HS & HN).
+  destruct (sec_bis_at_exact w s q HS HN HD) as [N I].
+  split; [exact G|]. split; [exact A|]. split; [exact N|].
+  split; intros b Hb; [exact (proj1 (I b) Hb)|exact (proj2 (I b) Hb)].
+Qed.
+
+(* ================= section scope: blocks (the envelope) ================= *)
+
+Definition sec_blocks_on_sound : spec := fun w s q b =>
+  exists bi a, In bi (kids w s) /\ In b (kids w bi) /\ naddr (getn w bi) = Some a /\
+    on_spec (a + noff (getn w b)) (nsize (getn w b)) q = true.
+Definition sec_blocks_on_compl : spec := fun w s q b =>
+  exists bi a, In bi (kids w s) /\ In b (kids w bi) /\ naddr (getn w bi) = Some a /\
+    0 < nsize (getn w b) /\
+    Z.max (Z.max (qstart q) (a + noff (getn w b))) a <
+    Z.min (Z.min (qstop q) (a + noff (getn w b) + nsize (getn w b))) (a + nsize (getn w bi)).
+Definition sec_blocks_at_sound : spec := fun w s q b =>
+  exists bi a, In bi (kids w s) /\ In b (kids w bi) /\ naddr (getn w bi) = Some a /\
+    in_q (a + noff (getn w b)) q = true.
+Definition sec_blocks_at_compl : spec := fun w s q b =>
+  exists bi a, In bi (kids w s) /\ In b (kids w bi) /\ naddr (getn w bi) = Some a /\
+    in_q (a + noff (getn w b)) q = true /\
+    a <= a + noff (getn w b) < a + nsize (getn w bi).
+
+Lemma stable_sec_blocks_on_sound : stable sec_blocks_on_sound.
+Proof. intros w w' x q b (Hn & Hk & _). unfold sec_blocks_on_sound, getn. rewrite Hn, Hk. tauto. Qed.
+Lemma stable_sec_blocks_on_compl : stable sec_blocks_on_compl.
+Proof. intros w w' x q b (Hn & Hk & _). unfold sec_blocks_on_compl, getn. rewrite Hn, Hk. tauto. Qed.
+Lemma stable_sec_blocks_at_sound : stable sec_blocks_at_sound.
+Proof. intros w w' x q b (Hn & Hk & _). unfold sec_blocks_at_sound, getn. rewrite Hn, Hk. tauto. Qed.
+Lemma stable_sec_blocks_at_compl : stable sec_blocks_at_compl.
+Proof. intros w w' x q b (Hn & Hk & _). unfold sec_blocks_at_compl, getn. rewrite Hn, Hk. tauto. Qed.
+
+Lemma disj_sec_blocks_on_sound known : disj known sec_blocks_on_sound.
+Proof.
+  intros w s s' q b (HF & _) (bi & a & H1 & H2 & _) (bi' & a' & H1' & H2' & _).
+  assert (bi = bi') by exact (kids_disj known w bi bi' b HF H2 H2'). subst bi'.
+  exact (kids_disj known w s s' bi HF H1 H1').
+Qed.
+Lemma disj_sec_blocks_at_sound known : disj known sec_blocks_at_sound.
+Proof.
+  intros w s s' q b (HF & _) (bi & a & H1 & H2 & _) (bi' & a' & H1' & H2' & _).
+  assert (bi = bi') by exact (kids_disj known w bi bi' b HF H2 H2'). subst bi'.
+  exact (kids_disj known w s s' bi HF H1 H1').
+Qed.
+
+Theorem sec_blocks_on_envl known :
+  envl known sec_blocks_on_sound sec_blocks_on_compl Dsec sec_blocks_on.
+Proof.
+  intros w s q HG HD.
+  destruct (sec_bis_on_world known w s q HG) as [G1 A1].
+  pose proof HG as (HF & HS & HN).
+  destruct (sec_bis_on_exact w s q HS HN HD) as [N1 I1].
+  unfold sec_blocks_on. revert G1 A1 N1 I1.
+  destruct (sec_bis_on w s q) as [w1 bis]. cbn [fst snd]. intros G1 A1 N1 I1.
+  assert (HDb : forall bi, In bi bis -> Dbi w1 bi).
+  { intros bi Hb. apply I1 in Hb. destruct Hb as [Hb _]. unfold Dbi.
+    rewrite (agree_kindof _ _ bi A1). exact (kid_of_sec_is_bi known w s bi HF HD Hb). }
+  destruct (chain_env known bi_on_spec bi_on_spec Dbi bi_blocks_on (bi_blocks_on_envl known)
+              stable_bi_on stable_bi_on stableD_Dbi (disj_bi_on known) q bis w1 G1 N1 HDb)
+    as (G2 & A2 & N2 & S2 & C2).
+  split; [exact G2|]. split; [exact (agree_trans _ _ _ A1 A2)|]. split; [exact N2|]. split.
+  - intros b Hb. apply S2 in Hb. destruct Hb as [bi [Hbi Hsp]].
+    apply (proj2 (stable_bi_on w w1 bi q b A1)) in Hsp. destruct Hsp as [Hk [a [Ha Hon]]].
+    apply I1 in Hbi. destruct Hbi as [Hbs _]. exists bi, a. auto.
+  - intros b (bi & a & Hbs & Hk & Ha & Hsz & Hlt). apply (C2 b bi).
+    + apply I1. split; auto. exists a. split; auto. apply on_spec_true. lia.
+    + apply (proj1 (stable_bi_on w w1 bi q b A1)). split; auto. exists a. split; auto.
+      apply on_spec_true. lia.
+Qed.
+
+Theorem sec_blocks_at_envl known :
+  envl known sec_blocks_at_sound sec_blocks_at_compl Dsec sec_blocks_at.
+Proof.
+  intros w s q HG HD.
+  destruct (sec_bis_on_world known w s q HG) as [G1 A1].
+  pose proof HG as (HF & HS & HN).
+  destruct (sec_bis_on_exact w s q HS HN HD) as [N1 I1].
+  unfold sec_blocks_at. revert G1 A1 N1 I1.
+  destruct (sec_bis_on w s q) as [w1 bis]. cbn [fst snd]. intros G1 A1 N1 I1.
+  assert (HDb : forall bi, In bi bis -> Dbi w1 bi).
+  { intros bi Hb. apply I1 in Hb. destruct Hb as [Hb _]. unfold Dbi.
+    rewrite (agree_kindof _ _ bi A1). exact (kid_of_sec_is_bi known w s bi HF HD Hb). }
+  destruct (chain_env known bi_at_spec bi_at_spec Dbi bi_blocks_at (bi_blocks_at_envl known)
+              stable_bi_at stable_bi_at stableD_Dbi (disj_bi_at known) q bis w1 G1 N1 HDb)
+    as (G2 & A2 & N2 & S2 & C2).
+  split; [exact G2|]. split; [exact (agree_trans _ _ _ A1 A2)|]. split; [exact N2|]. split.
+  - intros b Hb. apply S2 in Hb. destruct Hb as [bi [Hbi Hsp]].
+    apply (proj2 (stable_bi_at w w1 bi q b A1)) in Hsp. destruct Hsp as [Hk [a [Ha Hon]]].
+    apply I1 in Hbi. destruct Hbi as [Hbs _]. exists bi, a. auto.
+  - intros b (bi & a & Hbs & Hk & Ha & Hq & Hin). pose proof (in_q_bounds _ _ Hq) as Hbd.
+    apply (C2 b bi).
+    + apply I1. split; auto. exists a. split; auto. apply on_spec_true. lia.
+    + apply (proj1 (stable_bi_at w w1 bi q b A1)). split; auto. exists a. auto.
+Qed.
+
+(* ================= module and IR scope ================= *)
+
+Lemma secs_of_kids w m s : In s (secs_of w m) -> In s (kids w m).
+Proof. unfold secs_of, field. rewrite filter_In. tauto. Qed.
+
+Lemma secs_of_kind w m s : In s (secs_of w m) -> kindof w s = KSec.
+Proof.
+  unfold secs_of, field. rewrite filter_In. intros [_ H]. simpl in H.
+  destruct (kindof w s); simpl in H; try discriminate; reflexivity.
+Qed.
+
+Lemma secs_of_NoDup known w m : Good known w -> NoDup (secs_of w m).
+Proof. intros (HF & _). unfold secs_of, field. apply NoDup_filter. apply (f_nodup w known HF). Qed.
+
+Lemma secs_of_inj known w m m' x : Good known w ->
+  In x (secs_of w m) -> In x (secs_of w m') -> m = m'.
+Proof.
+  intros (HF & _) H1 H2. apply secs_of_kids in H1. apply secs_of_kids in H2.
+  exact (kids_disj known w m m' x HF H1 H2).
+Qed.
+
+Lemma mods_of_NoDup known w ir : Good known w -> NoDup (mods_of w ir).
+Proof. intros (HF & _). unfold mods_of. apply (f_nodup w known HF). Qed.
+
+Lemma mods_of_inj known w ir ir' x : Good known w ->
+  In x (mods_of w ir) -> In x (mods_of w ir') -> ir = ir'.
+Proof. intros (HF & _) H1 H2. exact (kids_disj known w ir ir' x HF H1 H2). Qed.
+
+Definition mod_spec (P : spec) : spec := liftS secs_of P.
+Definition ir_spec (P : spec) : spec := liftS mods_of (liftS secs_of P).
+
+(* the generic lifting theorems: any section-scope lookup inside an envelope lifts to module and
+   IR scope (union over the sections of the module / the modules of the IR) *)
+Theorem mod_lift_envl known Sd Cp f : envl known Sd Cp Dsec f ->
+  stable Sd -> stable Cp -> disj known Sd ->
+  envl known (mod_spec Sd) (mod_spec Cp) Dany (mod_lift f).
+Proof.
+  intros He HsS HsC Hdj. unfold mod_spec.
+  apply (lift_envl known Sd Cp Dsec Dany f secs_of He HsS HsC stableD_Dsec Hdj).
+  - intros w m HG _. exact (secs_of_NoDup known w m HG).
+  - intros w m x HG _ Hx. exact (secs_of_kind w m x Hx).
+Qed.
+
+Lemma mod_spec_stable P : stable P -> stable (mod_spec P).
+Proof. apply lift_stable. intros w w' m A. exact (agree_secs_of w w' m A). Qed.
+
+Lemma mod_spec_disj known P : disj known P -> disj known (mod_spec P).
+Proof. intros H. apply lift_disj; [exact H|]. exact (secs_of_inj known). Qed.
+
+Theorem ir_lift_envl known Sd Cp f : envl known Sd Cp Dsec f ->
+  stable Sd -> stable Cp -> disj known Sd ->
+  envl known (ir_spec Sd) (ir_spec Cp) Dany (ir_lift f).
+Proof.
+  intros He HsS HsC Hdj. unfold ir_spec.
+  apply (lift_envl known (mod_spec Sd) (mod_spec Cp) Dany Dany (mod_lift f) mods_of
+           (mod_lift_envl known Sd Cp f He HsS HsC Hdj)
+           (mod_spec_stable Sd HsS) (mod_spec_stable Cp HsC) stableD_Dany
+           (mod_spec_disj known Sd Hdj)).
+  - intros w m HG _. exact (mods_of_NoDup known w m HG).
+  - intros w m x HG _ Hx. exact I.
+Qed.
+
+(* reading an envelope / an exact envelope *)
+Lemma envl_exact known P D f : envl known P P D f ->
+  forall w x q, Good known w -> D w x ->
+    (Good known (fst (f w x q)) /\ agree w (fst (f w x q))) /\
+    NoDup (snd (f w x q)) /\ forall b, In b (snd (f w x q)) <-> P w x q b.
+Proof.
+  intros He w x q HG HD. destruct (He w x q HG HD) as (G & A & N & S1 & C1).
+  split; [auto|]. split; [exact N|]. intros b. split; auto.
+Qed.
+
+(* ================= the required statements, spelled out ================= *)
+
+(* uniform wrappers for scopes 1-2 (premises bundled in Good) *)
+Theorem bi_blocks_on_full known w bi q : Good known w -> kindof w bi = KBI ->
+  (Good known (fst (bi_blocks_on w bi q)) /\ agree w (fst (bi_blocks_on w bi q))) /\
+  NoDup (snd (bi_blocks_on w bi q)) /\
+  forall b, In b (snd (bi_blocks_on w bi q)) <-> bi_on_spec w bi q b.
+Proof. exact (envl_exact known _ _ _ (bi_blocks_on_envl known) w bi q). Qed.
+
+Theorem bi_blocks_at_full known w bi q : Good known w -> kindof w bi = KBI ->
+  (Good known (fst (bi_blocks_at w bi q)) /\ agree w (fst (bi_blocks_at w bi q))) /\
+  NoDup (snd (bi_blocks_at w bi q)) /\
+  forall b, In b (snd (bi_blocks_at w bi q)) <-> bi_at_spec w bi q b.
+Proof. exact (envl_exact known _ _ _ (bi_blocks_at_envl known) w bi q). Qed.
+
+Theorem bi_blocks_on_off_full known w bi q : Good known w -> kindof w bi = KBI ->
+  (Good known (fst (bi_blocks_on_off w bi q)) /\ agree w (fst (bi_blocks_on_off w bi q))) /\
+  NoDup (snd (bi_blocks_on_off w bi q)) /\
+  forall b, In b (snd (bi_blocks_on_off w bi q)) <-> bi_on_off_spec w bi q b.
+Proof. exact (envl_exact known _ _ _ (bi_blocks_on_off_envl known) w bi q). Qed.
+
+Theorem bi_blocks_at_off_full known w bi q : Good known w -> kindof w bi = KBI ->
+  (Good known (fst (bi_blocks_at_off w bi q)) /\ agree w (fst (bi_blocks_at_off w bi q))) /\
+  NoDup (snd (bi_blocks_at_off w bi q)) /\
+  forall b, In b (snd (bi_blocks_at_off w bi q)) <-> bi_at_off_spec w bi q b.
+Proof. exact (envl_exact known _ _ _ (bi_blocks_at_off_envl known) w bi q). Qed.
+
+Theorem sec_bis_on_full known w s q : Good known w -> kindof w s = KSec ->
+  (Good known (fst (sec_bis_on w s q)) /\ agree w (fst (sec_bis_on w s q))) /\
+  NoDup (snd (sec_bis_on w s q)) /\
+  forall bi, In bi (snd (sec_bis_on w s q)) <-> sec_bis_on_spec w s q bi.
+Proof. exact (envl_exact known _ _ _ (sec_bis_on_envl known) w s q). Qed.
+
+Theorem sec_bis_at_full known w s q : Good known w -> kindof w s = KSec ->
+  (Good known (fst (sec_bis_at w s q)) /\ agree w (fst (sec_bis_at w s q))) /\
+  NoDup (snd (sec_bis_at w s q)) /\
+  forall bi, In bi (snd (sec_bis_at w s q)) <-> sec_bis_at_spec w s q bi.
+Proof. exact (envl_exact known _ _ _ (sec_bis_at_envl known) w s q). Qed.
+
+(* 5. section scope, blocks *)
+Theorem sec_blocks_on_envelope known w s q : Good known w -> kindof w s = KSec ->
+  (Good known (fst (sec_blocks_on w s q)) /\ agree w (fst (sec_blocks_on w s q))) /\
+  NoDup (snd (sec_blocks_on w s q)) /\
+  (forall b, In b (snd (sec_blocks_on w s q)) ->
+     exists bi a, In bi (kids w s) /\ In b (kids w bi) /\ naddr (getn w bi) = Some a /\
+       on_spec (a + noff (getn w b)) (nsize (getn w b)) q = true) /\
+  (forall bi b a, In bi (kids w s) -> In b (kids w bi) -> naddr (getn w bi) = Some a ->
+     0 < nsize (getn w b) ->
+     Z.max (Z.max (qstart q) (a + noff (getn w b))) a <
+     Z.min (Z.min (qstop q) (a + noff (getn w b) + nsize (getn w b))) (a + nsize (getn w bi)) ->
+     In b (snd (sec_blocks_on w s q))).
+Proof.
+  intros HG HK. destruct (sec_blocks_on_envl known w s q HG HK) as (G & A & N & S1 & C1).
+  split; [auto|]. split; [exact N|]. split; [exact S1|].
+  intros bi b a H1 H2 H3 H4 H5. apply C1. exists bi, a. auto.
+Qed.
+
+Theorem sec_blocks_at_envelope known w s q : Good known w -> kindof w s = KSec ->
+  (Good known (fst (sec_blocks_at w s q)) /\ agree w (fst (sec_blocks_at w s q))) /\
+  NoDup (snd (sec_blocks_at w s q)) /\
+  (forall b, In b (snd (sec_blocks_at w s q)) ->
+     exists bi a, In bi (kids w s) /\ In b (kids w bi) /\ naddr (getn w bi) = Some a /\
+       in_q (a + noff (getn w b)) q = true) /\
+  (forall bi b a, In bi (kids w s) -> In b (kids w bi) -> naddr (getn w bi) = Some a ->
+     in_q (a + noff (getn w b)) q = true ->
+     a <= a + noff (getn w b) < a + nsize (getn w bi) ->
+     In b (snd (sec_blocks_at w s q))).
+Proof.
+  intros HG HK. destruct (sec_blocks_at_envl known w s q HG HK) as (G & A & N & S1 & C1).
+  split; [auto|]. split; [exact N|]. split; [exact S1|].
+  intros bi b a H1 H2 H3 H4 H5. apply C1. exists bi, a. auto.
+Qed.
+
+(* 6. module scope *)
+Theorem mod_blocks_on_envelope known w m q : Good known w ->
+  (Good known (fst (mod_lift sec_blocks_on w m q)) /\
+   agree w (fst (mod_lift sec_blocks_on w m q))) /\
+  NoDup (snd (mod_lift sec_blocks_on w m q)) /\
+  (forall b, In b (snd (mod_lift sec_blocks_on w m q)) ->
+     exists s, In s (secs_of w m) /\
+     exists bi a, In bi (kids w s) /\ In b (kids w bi) /\ naddr (getn w bi) = Some a /\
+       on_spec (a + noff (getn w b)) (nsize (getn w b)) q = true) /\
+  (forall s bi b a, In s (secs_of w m) -> In bi (kids w s) -> In b (kids w bi) ->
+     naddr (getn w bi) = Some a -> 0 < nsize (getn w b) ->
+     Z.max (Z.max (qstart q) (a + noff (getn w b))) a <
+     Z.min (Z.min (qstop q) (a + noff (getn w b) + nsize (getn w b))) (a + nsize (getn w bi)) ->
+     In b (snd (mod_lift sec_blocks_on w m q))).
+Proof.
+  intros HG.
+  destruct (mod_lift_envl known _ _ _ (sec_blocks_on_envl known) stable_sec_blocks_on_sound
+              stable_sec_blocks_on_compl (disj_sec_blocks_on_sound known) w m q HG I)
+    as (G & A & N & S1 & C1).
+  split; [auto|]. split; [exact N|]. split; [exact S1|].
+  intros s bi b a H0 H1 H2 H3 H4 H5. apply C1. exists s. split; [exact H0|]. exists bi, a. auto.
+Qed.
+
+Theorem mod_blocks_at_envelope known w m q : Good known w ->
+  (Good known (fst (mod_lift sec_blocks_at w m q)) /\
+   agree w (fst (mod_lift sec_blocks_at w m q))) /\
+  NoDup (snd (mod_lift sec_blocks_at w m q)) /\
+  (forall b, In b (snd (mod_lift sec_blocks_at w m q)) ->
+     exists s, In s (secs_of w m) /\
+     exists bi a, In bi (kids w s) /\ In b (kids w bi) /\ naddr (getn w bi) = Some a /\
+       in_q (a + noff (getn w b)) q = true) /\
+  (forall s bi b a, In s (secs_of w m) -> In bi (kids w s) -> In b (kids w bi) ->
+     naddr (getn w bi) = Some a -> in_q (a + noff (getn w b)) q = true ->
+     a <= a + noff (getn w b) < a + nsize (getn w bi) ->
+     In b (snd (mod_lift sec_blocks_at w m q))).
+Proof.
+  intros HG.
+  destruct (mod_lift_envl known _ _ _ (sec_blocks_at_envl known) stable_sec_blocks_at_sound
+              stable_sec_blocks_at_compl (disj_sec_blocks_at_sound known) w m q HG I)
+    as (G & A & N & S1 & C1).
+  split; [auto|]. split; [exact N|]. split; [exact S1|].
+  intros s bi b a H0 H1 H2 H3 H4 H5. apply C1. exists s. split; [exact H0|]. exists bi, a. auto.
+Qed.
+
+Theorem mod_bis_on_exact known w m q : Good known w ->
+  (Good known (fst (mod_lift sec_bis_on w m q)) /\ agree w (fst (mod_lift sec_bis_on w m q))) /\
+  NoDup (snd (mod_lift sec_bis_on w m q)) /\
+  forall bi, In bi (snd (mod_lift sec_bis_on w m q)) <->
+    exists s, In s (secs_of w m) /\ In bi (kids w s) /\
+      exists a, naddr (getn w bi) = Some a /\ on_spec a (nsize (getn w bi)) q = true.
+Proof.
+  intros HG.
+  exact (envl_exact known _ _ _
+           (mod_lift_envl known _ _ _ (sec_bis_on_envl known) stable_sec_bis_on stable_sec_bis_on
+              (disj_sec_bis_on known)) w m q HG I).
+Qed.
+
+Theorem mod_bis_at_exact known w m q : Good known w ->
+  (Good known (fst (mod_lift sec_bis_at w m q)) /\ agree w (fst (mod_lift sec_bis_at w m q))) /\
+  NoDup (snd (mod_lift sec_bis_at w m q)) /\
+  forall bi, In bi (snd (mod_lift sec_bis_at w m q)) <->
+    exists s, In s (secs_of w m) /\ In bi (kids w s) /\
+      exists a, naddr (getn w bi) = Some a /\ in_q a q = true.
+Proof.
+  intros HG.
+  exact (envl_exact known _ _ _
+           (mod_lift_envl known _ _ _ (sec_bis_at_envl known) stable_sec_bis_at stable_sec_bis_at
+              (disj_sec_bis_at known)) w m q HG I).
+Qed.
+
+(* 6. IR scope *)
+Theorem ir_blocks_on_envelope known w ir q : Good known w ->
+  (Good known (fst (ir_lift sec_blocks_on w ir q)) /\
+   agree w (fst (ir_lift sec_blocks_on w ir q))) /\
+  NoDup (snd (ir_lift sec_blocks_on w ir q)) /\
+  (forall b, In b (snd (ir_lift sec_blocks_on w ir q)) ->
+     exists m, In m (kids w ir) /\ exists s, In s (secs_of w m) /\
+     exists bi a, In bi (kids w s) /\ In b (kids w bi) /\ naddr (getn w bi) = Some a /\
+       on_spec (a + noff (getn w b)) (nsize (getn w b)) q = true) /\
+  (forall m s bi b a, In m (kids w ir) -> In s (secs_of w m) -> In bi (kids w s) ->
+     In b (kids w bi) -> naddr (getn w bi) = Some a -> 0 < nsize (getn w b) ->
+     Z.max (Z.max (qstart q) (a + noff (getn w b))) a <
+     Z.min (Z.min (qstop q) (a + noff (getn w b) + nsize (getn w b))) (a + nsize (getn w bi)) ->
+     In b (snd (ir_lift sec_blocks_on w ir q))).
+Proof.
+  intros HG.
+  destruct (ir_lift_envl known _ _ _ (sec_blocks_on_envl known) stable_sec_blocks_on_sound
+              stable_sec_blocks_on_compl (disj_sec_blocks_on_sound known) w ir q HG I)
+    as (G & A & N & S1 & C1).
+  split; [auto|]. split; [exact N|]. split; [exact S1|].
+  intros m s bi b a Hm H0 H1 H2 H3 H4 H5. apply C1. exists m. split; [exact Hm|].
+  exists s. split; [exact H0|]. exists bi, a. auto.
+Qed.
+
+Theorem ir_blocks_at_envelope known w ir q : Good known w ->
+  (Good known (fst (ir_lift sec_blocks_at w ir q)) /\
+   agree w (fst (ir_lift sec_blocks_at w ir q))) /\
+  NoDup (snd (ir_lift sec_blocks_at w ir q)) /\
+  (forall b, In b (snd (ir_lift sec_blocks_at w ir q)) ->
+     exists m, In m (kids w ir) /\ exists s, In s (secs_of w m) /\
+     exists bi a, In bi (kids w s) /\ In b (kids w bi) /\ naddr (getn w bi) = Some a /\
+       in_q (a + noff (getn w b)) q = true) /\
+  (forall m s bi b a, In m (kids w ir) -> In s (secs_of w m) -> In bi (kids w s) ->
+     In b (kids w bi) -> naddr (getn w bi) = Some a -> in_q (a + noff (getn w b)) q = true ->
+     a <= a + noff (getn w b) < a + nsize (getn w bi) ->
+     In b (snd (ir_lift sec_blocks_at w ir q))).
+Proof.
+  intros HG.
+  destruct (ir_lift_envl known _ _ _ (sec_blocks_at_envl known) stable_sec_blocks_at_sound
+              stable_sec_blocks_at_compl (disj_sec_blocks_at_sound known) w ir q HG I)
+    as (G & A & N & S1 & C1).
+  split; [auto|]. split; [exact N|]. split; [exact S1|].
+  intros m s bi b a Hm H0 H1 H2 H3 H4 H5. apply C1. exists m. split; [exact Hm|].
+  exists s. split; [exact H0|]. exists bi, a. auto.
+Qed.
+
+Theorem ir_bis_on_exact known w ir q : Good known w ->
+  (Good known (fst (ir_lift sec_bis_on w ir q)) /\ agree w (fst (ir_lift sec_bis_on w ir q))) /\
+  NoDup (snd (ir_lift sec_bis_on w ir q)) /\
+  forall bi, In bi (snd (ir_lift sec_bis_on w ir q)) <->
+    exists m, In m (kids w ir) /\ exists s, In s (secs_of w m) /\ In bi (kids w s) /\
+      exists a, naddr (getn w bi) = Some a /\ on_spec a (nsize (getn w bi)) q = true.
+Proof.
+  intros HG.
+  exact (envl_exact known _ _ _
+           (ir_lift_envl known _ _ _ (sec_bis_on_envl known) stable_sec_bis_on stable_sec_bis_on
+              (disj_sec_bis_on known)) w ir q HG I).
+Qed.
+
+Theorem ir_bis_at_exact known w ir q : Good known w ->
+  (Good known (fst (ir_lift sec_bis_at w ir q)) /\ agree w (fst (ir_lift sec_bis_at w ir q))) /\
+  NoDup (snd (ir_lift sec_bis_at w ir q)) /\
+  forall bi, In bi (snd (ir_lift sec_bis_at w ir q)) <->
+    exists m, In m (kids w ir) /\ exists s, In s (secs_of w m) /\ In bi (kids w s) /\
+      exists a, naddr (getn w bi) = Some a /\ in_q a q = true.
+Proof.
+  intros HG.
+  exact (envl_exact known _ _ _
+           (ir_lift_envl known _ _ _ (sec_bis_at_envl known) stable_sec_bis_at stable_sec_bis_at
+              (disj_sec_bis_at known)) w ir q HG I).
+Qed.
+
+Print Assumptions lt_get_exact.
+Print Assumptions force_spec.
+Print Assumptions force_bi_index.
+Print Assumptions force_sec_index.
+Print Assumptions bi_blocks_on_exact.
+Print Assumptions bi_blocks_at_exact.
+Print Assumptions bi_blocks_on_off_exact.
+Print Assumptions bi_blocks_at_off_exact.
+Print Assumptions bi_blocks_on_full.
+Print Assumptions bi_blocks_at_full.
+Print Assumptions bi_blocks_on_off_full.
+Print Assumptions bi_blocks_at_off_full.
+Print Assumptions sec_bis_on_exact.
+Print Assumptions sec_bis_at_exact.
+Print Assumptions sec_bis_on_full.
+Print Assumptions sec_bis_at_full.
+Print Assumptions sec_extent_exact.
+Print Assumptions sec_extent_world.
+Print Assumptions ext_pure_Some.
+Print Assumptions ext_pure_None.
+Print Assumptions sections_gen_spec.
+Print Assumptions sections_on_exact.
+Print Assumptions sections_at_exact.
+Print Assumptions sections_on_world.
+Print Assumptions sections_at_world.
+Print Assumptions chain_cons.
+Print Assumptions chain_env.
+Print Assumptions sec_blocks_on_envl.
+Print Assumptions sec_blocks_at_envl.
+Print Assumptions sec_blocks_on_envelope.
+Print Assumptions sec_blocks_at_envelope.
+Print Assumptions mod_lift_envl.
+Print Assumptions ir_lift_envl.
+Print Assumptions mod_blocks_on_envelope.
+Print Assumptions mod_blocks_at_envelope.
+Print Assumptions mod_bis_on_exact.
+Print Assumptions mod_bis_at_exact.
+Print Assumptions ir_blocks_on_envelope.
+Print Assumptions ir_blocks_at_envelope.
+Print Assumptions ir_bis_on_exact.
+Print Assumptions ir_bis_at_exact.
